@@ -51,6 +51,31 @@ impl<'s> Semantics<'s> {
         self.mode.operand_load(block, operand, self.instruction())
     }
 
+    /// The target of a call / jmp as an expression of the mode's address width.
+    ///
+    /// A direct target is the address capstone computed; a 16-bit (operand-size override)
+    /// indirect target is zero-extended, as the processor clears the upper bits of the
+    /// instruction pointer; far pointers (m16:32, m16:64) are not supported.
+    pub fn branch_target(
+        &self,
+        block: &mut Block,
+        operand: &cs_x86_op,
+    ) -> Result<Expression, Error> {
+        let bits = self.mode().bits();
+        if operand.type_ == x86_op_type::X86_OP_IMM {
+            return Ok(expr_const(operand.imm() as u64, bits));
+        }
+        let target = self.operand_load(block, operand)?;
+        match target.bits().cmp(&bits) {
+            std::cmp::Ordering::Equal => Ok(target),
+            std::cmp::Ordering::Less => Expr::zext(bits, target),
+            std::cmp::Ordering::Greater => Err(Error::Custom(format!(
+                "far branch target at 0x{:x} is not supported",
+                self.instruction().address
+            ))),
+        }
+    }
+
     pub fn operand_store(
         &self,
         block: &mut Block,
@@ -1151,7 +1176,7 @@ impl<'s> Semantics<'s> {
             let block = control_flow_graph.new_block()?;
 
             // get started
-            let dst = self.operand_load(block, &detail.operands[0])?;
+            let dst = self.branch_target(block, &detail.operands[0])?;
 
             let ret_addr = self.instruction().address + self.instruction().size as u64;
 
@@ -2028,7 +2053,7 @@ impl<'s> Semantics<'s> {
         let block_index = {
             let block = control_flow_graph.new_block()?;
 
-            let dst = self.operand_load(block, &detail.operands[0])?;
+            let dst = self.branch_target(block, &detail.operands[0])?;
 
             // we only need to emit a brc here if the destination cannot be determined
             // at translation time
